@@ -48,17 +48,37 @@ Definition label_ok (p : nat -> bool) (l : N * N * N) : bool :=
   let '(lo, hi, _) := l in
   (lo <=? hi) && exists_between p (N.to_nat lo) (N.to_nat (hi - lo)).
 
-Definition crash_agrees (kvss : list kvs) (c : crash) : bool :=
+(* ... or the stop fell INSIDE op number j (0-based: j ops had returned, op j had
+   started, lo <= j < hi) and [q j] accepts the recovered state as a state between
+   two of the batches of that op (paged ops only) *)
+Definition label_ok2 (p q : nat -> bool) (l : N * N * N) : bool :=
+  let '(lo, hi, _) := l in
+  label_ok p l || ((lo <? hi) && exists_between q (N.to_nat lo) (N.to_nat (hi - lo - 1))).
+
+(* the stores strictly between the batches one op committed (st -> st1) *)
+Definition op_mids (st st1 : xstate) : list kvs :=
+  let bs := skipn (length (st_log _ st)) (st_log _ st1) in
+  map (fun k => run_batches key_eqb (st_kv _ st) (firstn k bs)) (seq 1 (length bs - 1)).
+
+Fixpoint run_mids (st : xstate) (ops : list op) : list (list kvs) :=
+  match ops with
+  | [] => []
+  | o :: rest => let '(st1, _, _) := step_dump xfilter [] x_may x_add true st o in
+                 op_mids st st1 :: run_mids st1 rest
+  end.
+
+Definition crash_agrees (kvss : list kvs) (midss : list (list kvs)) (c : crash) : bool :=
   match c with
   | Cr labels _ kv =>
-    forallb (label_ok (fun j => (j <? length kvss)%nat && kv_agree kv (nth_or [] j kvss))) labels
+    forallb (label_ok2 (fun j => (j <? length kvss)%nat && kv_agree kv (nth_or [] j kvss))
+                       (fun j => existsb (kv_agree kv) (nth_or [] j midss))) labels
   end.
 
 Definition C09_mismatch (c : c09_case) : bool :=
   let h := c9_hist c in
   let ops := map entry_op (c_steps h) in
   C07_mismatch h
-  || negb (forallb (crash_agrees (run_kvs xinit ops)) (c9_crashes c)).
+  || negb (forallb (crash_agrees (run_kvs xinit ops) (run_mids xinit ops)) (c9_crashes c)).
 
 (* ---- monitor ------------------------------------------------------------------------------ *)
 
@@ -142,19 +162,45 @@ Definition kv_inv (kv : kvs) (leos : list N) (taint : aspec) : bool :=
   forallb (chk_entry kv taint) kv
   && forallb (fun c => nth_or 0 (N.to_nat c) leos =? recoverLEO kv c) all_chans.
 
-Definition crash_ok (states : list aspec) (c : crash) : bool :=
+(* A stop INSIDE the paged DiscardForRestore of channel [c] (plain logs before the
+   call: [s]): every other channel is exactly as before; of channel [c] a SUFFIX of
+   the rows is left (whole pages are gone from the front), checkpoint and epoch
+   points are still there; and the index invariant holds on the recovered keys --
+   every message of the channel is there with its global-id / client-msg-no /
+   idempotency / sender index entries, or not at all. *)
+Fixpoint msgs_suffix (l full : list msg) : bool :=
+  msgs_eqb l full || match full with [] => false | _ :: r => msgs_suffix l r end.
+
+Definition mid_ok (kv : kvs) (leos : list N) (s : aspec) (c : N) : bool :=
+  forallb (fun c' =>
+             let l := as_log s c' in
+             (if c' =? c then msgs_suffix (map messageFromRow (rows_of kv c')) (amsgs l)
+              else msgs_eqb (map messageFromRow (rows_of kv c')) (amsgs l)
+                   && (nth_or 0 (N.to_nat c') leos =? al_leo l))
+             && option_eqb triple_eqb (loadCheckpoint kv c') (al_ck l)
+             && list_eqb npair_eqb (loadHistory kv c') (al_hist l)) all_chans
+  && kv_inv kv leos s.
+
+Definition nth_entry (j : nat) (tr : list entry) : option entry := nth_error tr j.
+
+Definition crash_ok (states : list aspec) (tr : list entry) (c : crash) : bool :=
   match c with
   | Cr labels leos ents =>
     match kvs_of_ents ents with
     | None => false
     | Some kv =>
-      forallb (label_ok (fun j => (j <? length states)%nat && recovered_is kv leos (nth_or as_init j states)
-                                  && kv_inv kv leos (nth_or as_init j states))) labels
+      forallb (label_ok2 (fun j => (j <? length states)%nat && recovered_is kv leos (nth_or as_init j states)
+                                   && kv_inv kv leos (nth_or as_init j states))
+                         (fun j => match nth_entry j tr with
+                                   | Some (E (ODiscard c) _ _) =>
+                                     (j <? length states)%nat && mid_ok kv leos (nth_or as_init j states) c
+                                   | _ => false
+                                   end)) labels
     end
   end.
 
 Definition C09_monitor (c : c09_case) : N :=
   match spec_states as_init (c_steps (c9_hist c)) with
   | None => 1
-  | Some states => if forallb (crash_ok states) (c9_crashes c) then 0 else 1
+  | Some states => if forallb (crash_ok states (c_steps (c9_hist c))) (c9_crashes c) then 0 else 1
   end.
